@@ -49,6 +49,21 @@ Step ==
               /\ UNCHANGED nbad
          [] e.ev \in {"Fit", "Predict", "Score", "CVDone"} ->
               IF ~live THEN UNCHANGED <<st, live, nbad, hits>>
+              ELSE IF st.phase = "failed"
+              THEN \* the estimator failed on an earlier fold: whatever the driver still does is
+                   \* not constrained, only the way the run ends is (G_DoneAfterFailure)
+                   IF e.ev # "CVDone" THEN UNCHANGED <<st, live, nbad, hits>>
+                   ELSE /\ st' = Dummy /\ live' = FALSE
+                        /\ IF G_DoneAfterFailure(st, e)
+                           THEN hits' = Hit("CVDoneAfterFailure") /\ UNCHANGED nbad
+                           ELSE Bad(e, "G_DoneAfterFailure") /\ nbad' = nbad + 1 /\ UNCHANGED hits
+              ELSE IF e.ev \in {"Fit", "Predict"} /\ e.failed
+              THEN \* the failing call itself must still be the right call (right rows)
+                   IF (IF e.ev = "Fit" THEN G_Fit(st, e) ELSE G_PredictRows(st, e))
+                   THEN /\ st' = [st EXCEPT !.phase = "failed"]
+                        /\ hits' = Hit("EstimatorFailed") /\ UNCHANGED <<live, nbad>>
+                   ELSE /\ Bad(e, "G_" \o e.ev) /\ st' = Dummy /\ live' = FALSE /\ nbad' = nbad + 1
+                        /\ UNCHANGED hits
               ELSE LET g == CASE e.ev = "Fit" -> G_Fit(st, e)
                               [] e.ev = "Predict" -> G_Predict(st, e)
                               [] e.ev = "Score" -> G_Score(st, e)
@@ -66,7 +81,7 @@ Step ==
                             /\ UNCHANGED hits
          [] OTHER -> Bad(e, "unknown event") /\ nbad' = nbad + 1 /\ UNCHANGED <<st, live, hits>>
 
-HitNames == {"CVStartCustom", "KFoldVia", "KFold", "KFoldShuffled", "KFoldPanic", "TTS", "TTSPanic", "CVStart", "Fit", "Predict", "Score", "CVDone"}
+HitNames == {"CVStartCustom", "KFoldVia", "KFold", "KFoldShuffled", "KFoldPanic", "TTS", "TTSPanic", "CVStart", "Fit", "Predict", "Score", "CVDone", "EstimatorFailed", "CVDoneAfterFailure"}
 
 Init == /\ l = 1 /\ st = Dummy /\ live = FALSE /\ nbad = 0
         /\ hits = [x \in HitNames |-> 0]
